@@ -8,10 +8,12 @@ func init() {
 			"(CMP) each comparator indexes the very slice being sorted with its i, j and compares one key (StopSequence / ShapePtSequence / ID) with <; " +
 			"file-order collections (agencies, routes, stops, transfers, trips, frequencies, added/removed dates) are built only by appending one element at the end and are never sorted; " +
 			"(PREALLOC) a trip's StopTimes is replaced by a pre-allocated slice only while it is still empty, so interleaved rows lose nothing; (CACHE) the current-trip cache changes pointer and key together, from one lookup. " +
-			"Not decided: sort.Slice itself; equal sequence numbers (excluded by the property).",
+			"(PHASE) no collection of the result is sorted in a later phase of the file table than one in which addresses of its elements were kept (the sort would move other entities under those pointers). Not decided: sort.Slice itself; equal sequence numbers (excluded by the property).",
 		Rules: []Rule{
+			{Name: "SCAN", Doc: "a loop that does something for each element is not left early (no break out of a processing loop)", MinInstances: 1, Run: func(c *Ctx) { runFullScan(c, staticParseFns(c), "SCAN") }},
 			{Name: "ORDER", Doc: "per-group sorts, comparators, tail appends, pre-allocation guard, cache coherence", MinInstances: 8, Run: runStaticOrder},
 			{Name: "G6", Doc: "map-built output sorted by key", MinInstances: 2, Run: func(c *Ctx) { runG6(c, staticParseFns(c)) }},
+			{Name: "PHASE", Doc: "a result collection is not sorted after addresses of its elements were kept", MinInstances: 1, Run: func(c *Ctx) { runSortAfterAddress(c, "PHASE") }},
 		},
 	})
 }
